@@ -220,7 +220,6 @@ def Config.script (sig : Sig) (cfg : Config) : List Clause :=
 
 structure Config.WF (sig : Sig) (cfg : Config) : Prop where
   conds_wf : ∀ p ∈ cfg.conds, p.1.WF sig
-  dflt_out : cfg.dflt ≠ none → sig.numOut ≠ 0
   nonempty : cfg.dflt = none → cfg.conds ≠ []
   first_when : cfg.dflt = none → ∀ specs r rest, cfg.conds = (Cond.when specs, r) :: rest → specs ≠ [] ∧ sig.nIn ≤ specs.length
 
@@ -235,17 +234,13 @@ theorem createWhen_none_inv (sig : Sig) :
     refine ⟨_, rfl, ⟨rfl, rfl, by simp, ?_⟩, rfl⟩
     simp [DfltOk, h0]
 
-theorem createWhen_dflt_inv (sig : Sig) (d : Res) (h0 : sig.numOut ≠ 0) :
+theorem createWhen_dflt_inv (sig : Sig) (d : Res) :
     ∃ w, createWhen sig none (some (sig.numOut, d)) = .ok w ∧ Inv sig (some d) [] w := by
   unfold createWhen
-  cases hn : sig.numOut with
-  | zero => exact absurd hn h0
-  | succ n =>
-    simp only [newAlwaysMatch, bind, Except.bind, pure, Except.pure, W.alloc, Nat.lt_irrefl, if_false,
-      Nat.succ_ne_zero, bne_self_eq_false, Bool.false_eq_true]
-    simp only [hn, bne_self_eq_false, Bool.false_eq_true, if_false]
-    refine ⟨_, rfl, ⟨rfl, rfl, by simp, ?_⟩⟩
-    simp [DfltOk]
+  simp only [newAlwaysMatch, bind, Except.bind, pure, Except.pure, W.alloc, Nat.lt_irrefl, if_false,
+    bne_self_eq_false, Bool.false_eq_true]
+  refine ⟨_, rfl, ⟨rfl, rfl, by simp, ?_⟩⟩
+  simp [DfltOk]
 
 /-- first clause `When(specs...)` (non-empty) followed by its `Return` -/
 theorem first_when_inv (sig : Sig) (specs : List Spec) (r : Res) (hne : specs ≠ []) (hlen : sig.nIn ≤ specs.length)
@@ -278,7 +273,7 @@ theorem build_inv (sig : Sig) (cfg : Config) (hw : cfg.WF sig) :
   obtain ⟨dflt, conds⟩ := cfg
   cases dflt with
   | some d =>
-    obtain ⟨w0, h0, hi0⟩ := createWhen_dflt_inv sig d (hw.dflt_out (by simp))
+    obtain ⟨w0, h0, hi0⟩ := createWhen_dflt_inv sig d
     obtain ⟨w1, h1, hi1⟩ := steps_conds sig (some d) conds [] w0 hi0 hw.conds_wf
     refine ⟨w1, ?_, by simpa using hi1⟩
     simp only [Config.script, List.singleton_append, build, first, h0, bind, Except.bind]
@@ -405,5 +400,33 @@ theorem invoke_inv (eqv) (sig : Sig) (cfg : Config) (w : W) (hi : Inv sig cfg.df
         simp [h1, W.get, h3, Matcher.result, Except.map, pure, Except.pure, h0]
       · simp only [h0, if_false] at hd
         simp [hd, hs, h0, Except.map, throw, throwThe, MonadExceptOf.throw]
+
+/-! ### `When.Matches` -/
+
+def pairConds (ps : List (List Spec × Res)) : List (Cond × Res) := ps.map (fun p => (Cond.when p.1, p.2))
+
+theorem matchPairs_inv (sig : Sig) (d : Option Res) (ps : List (List Spec × Res)) :
+    ∀ (pre : List (Cond × Res)) (w : W), Inv sig d pre w → (∀ p ∈ ps, (Cond.when p.1).WF sig) →
+      ∃ w', w.matchPairs ps = .ok w' ∧ Inv sig d (pre ++ pairConds ps) w' := by
+  induction ps with
+  | nil => intro pre w hi _; exact ⟨w, rfl, by simpa [pairConds] using hi⟩
+  | cons p rest ih =>
+    intro pre w hi hc
+    obtain ⟨args, r⟩ := p
+    have hs := hi.sig_eq
+    obtain ⟨ha, hr⟩ := hc (args, r) (by simp)
+    have hnd := newDefaultMatch_ok sig args [r] ha hr
+    have hi1 : Inv sig d (pre ++ [(Cond.when args, r)])
+        { sig := sig, store := fun i => if i = w.next then some { kind := .dflt args, results := [r], cur := 0 } else w.store i,
+          next := w.next + 1, ms := w.ms ++ [w.next], dflt := w.dflt, cur := w.cur } := by
+      apply inv_append sig d pre w _ r hi
+      · simp [Cond.matcher]
+      · intro i hlt
+        have : i ≠ w.next := Nat.ne_of_lt hlt
+        simp [this]
+    obtain ⟨w2, h2, hi2⟩ := ih _ _ hi1 (fun q hq => hc q (by simp [hq]))
+    refine ⟨w2, ?_, by simpa [pairConds] using hi2⟩
+    simp only [W.matchPairs, hs, hnd, bind, Except.bind, W.alloc]
+    exact h2
 
 end When
